@@ -62,6 +62,9 @@ pub struct RunOut {
     pub ops_completed: u64,
     /// Short description of the run's configuration (for samples).
     pub summary: String,
+    /// Engines without faults (the API trace workload) mark their runs as
+    /// countable cases explicitly.
+    pub force_nontrivial: bool,
     buf: String,
 }
 
@@ -79,6 +82,7 @@ impl RunOut {
             faults_fired: 0,
             ops_completed: 0,
             summary: String::new(),
+            force_nontrivial: false,
             buf: String::new(),
         }
     }
@@ -181,6 +185,11 @@ pub fn install_panic_hook() {
 /// `Err(message)`, counted under `label`.
 pub fn guard<T>(out: &mut RunOut, label: &'static str, f: impl FnOnce() -> T) -> Result<T, String> {
     out.stats.inc(label);
+    guard_raw(f)
+}
+
+/// `guard` without bookkeeping (for callers that hold the `RunOut` inside `f`).
+pub fn guard_raw<T>(f: impl FnOnce() -> T) -> Result<T, String> {
     IN_GUARD.with(|g| *g.borrow_mut() = true);
     let r = catch_unwind(AssertUnwindSafe(f));
     IN_GUARD.with(|g| *g.borrow_mut() = false);
